@@ -171,6 +171,10 @@ func (es *Events) AddEmitted(x interface{}) {
 
 // AddTrace adds the given thing to the list of traces.
 func (es *Events) AddTrace(x interface{}) {
+	if es.Traces == nil {
+		// An Events value that wasn't made by newEvents.
+		es.Traces = NewTraces()
+	}
 	es.Traces.Add(x)
 }
 
@@ -182,6 +186,9 @@ func (es *Events) AddEvents(more *Events) {
 	}
 	for _, x := range more.Emitted {
 		es.AddEmitted(x)
+	}
+	if more.Traces == nil {
+		return
 	}
 	for _, x := range more.Traces.Messages {
 		es.AddTrace(x)
